@@ -87,8 +87,8 @@ Section Builder.
   Notation R := (T N).
 
   (* units.py (re-extracted on every run and proved equal in link/C02_Link.v) *)
-  Definition FEET_TO_METERS : R := lit (3048)%Z (10000)%Z (0x1.381d7dbf487fdp-2)%float.
-  Definition METERS_TO_FEET : R := lit (328084)%Z (100000)%Z (0x1.a3f290abb44e5p+1)%float.
+  Definition FEET_TO_METERS : R := lit (381)%Z (1250)%Z (0x1.381d7dbf487fdp-2)%float.
+  Definition METERS_TO_FEET : R := lit (82021)%Z (25000)%Z (0x1.a3f290abb44e5p+1)%float.
   Definition METERS_TO_FL : R := METERS_TO_FEET / lit (100)%Z (1)%Z (0x1.9p+6)%float.
   Definition NAUTICAL_MILES_TO_METERS : R := lit (1852)%Z (1)%Z (0x1.cfp+10)%float.
   Definition MINUTES_TO_SECONDS : R := lit (60)%Z (1)%Z (0x1.ep+5)%float.
@@ -97,14 +97,15 @@ Section Builder.
   Definition c3000 : R := lit (3000)%Z (1)%Z (0x1.77p+11)%float.
   Definition c7000 : R := lit (7000)%Z (1)%Z (0x1.b58p+12)%float.
   Definition c1823 : R := lit (1823)%Z (100)%Z (0x1.23ae147ae147bp+4)%float.
-  Definition c005 : R := lit (5)%Z (100)%Z (0x1.999999999999ap-5)%float.
-  Definition c015 : R := lit (15)%Z (100)%Z (0x1.3333333333333p-3)%float.
-  Definition c05 : R := lit (5)%Z (10)%Z (0x1p-1)%float.
+  Definition c005 : R := lit (1)%Z (20)%Z (0x1.999999999999ap-5)%float.
+  Definition c015 : R := lit (3)%Z (20)%Z (0x1.3333333333333p-3)%float.
+  Definition c05 : R := lit (1)%Z (2)%Z (0x1p-1)%float.
   Definition c180 : R := lit (180)%Z (1)%Z (0x1.68p+7)%float.
   Definition c200 : R := lit (200)%Z (1)%Z (0x1.9p+7)%float.
   Definition c100 : R := lit (100)%Z (1)%Z (0x1.9p+6)%float.
   Definition c30 : R := lit (30)%Z (1)%Z (0x1.ep+4)%float.
   Definition c45 : R := lit (45)%Z (1)%Z (0x1.68p+5)%float.
+  Definition c0 : R := lit (0)%Z (1)%Z (0x0p+0)%float.
 
   (* one trajectory point: the 14 pointwise base fields *)
   Record pt := mkpt {
@@ -128,7 +129,7 @@ Section Builder.
     else if des_start <? de then Err ESchedule
     else
       let dd := c1823 * (des_start - de) in
-      if dd <? zero then Err ESchedule else Ok (mksched clm crz des_start de dd).
+      if dd <? c0 then Err ESchedule else Ok (mksched clm crz des_start de dd).
 
   (* ---- oracles ---- *)
   (* perf k rule altitude mass : the k-th performance evaluation of the flight; None = refused *)
@@ -142,23 +143,28 @@ Section Builder.
     if (from <? zero) || (step <? zero) then None else Some (geo kg (from + step)).
 
   (* ---- calc_starting_mass ---- *)
+  (* the arithmetic (re-extracted from the source on every run and proved equal in link/C02_Link.v);
+     returns (starting mass, non-reserve fuel load) *)
+  Definition calc_formula (tas ff total_dist lf max_payload empty_mass max_mass : R) : R * R :=
+    let payload := max_payload * lf in
+    let approx_time := total_dist / tas in
+    let fuel_mass := approx_time * ff in
+    let reserve := fuel_mass * c005 in
+    let '(divert_dist, hold_time) :=
+      if (c180 * MINUTES_TO_SECONDS) <? approx_time
+      then (c200 * NAUTICAL_MILES_TO_METERS, c30 * MINUTES_TO_SECONDS)
+      else (c100 * NAUTICAL_MILES_TO_METERS, c45 * MINUTES_TO_SECONDS) in
+    let divert := divert_dist / tas * ff in
+    let hold := hold_time * ff in
+    let sm := empty_mass + payload + fuel_mass + reserve + divert + hold in
+    let sm := if max_mass <? sm then max_mass else sm in
+    (sm, fuel_mass).
+
   Definition calc_starting_mass (kp : nat) (crz total_dist lf max_payload empty_mass max_mass : R)
     : res (R * R) :=
     match perf kp Cruise crz max_mass with
     | None => Err EPerf
-    | Some (tas, _, ff) =>
-      let payload := max_payload * lf in
-      let approx_time := total_dist / tas in
-      let fuel_mass := approx_time * ff in
-      let reserve := fuel_mass * c005 in
-      let long := (c180 * MINUTES_TO_SECONDS) <? approx_time in
-      let divert_dist := if long then c200 * NAUTICAL_MILES_TO_METERS else c100 * NAUTICAL_MILES_TO_METERS in
-      let hold_time := if long then c30 * MINUTES_TO_SECONDS else c45 * MINUTES_TO_SECONDS in
-      let divert := divert_dist / tas * ff in
-      let hold := hold_time * ff in
-      let sm := empty_mass + payload + fuel_mass + reserve + divert + hold in
-      let sm := if max_mass <? sm then max_mass else sm in
-      Ok (sm, fuel_mass)
+    | Some (tas, _, ff) => Ok (calc_formula tas ff total_dist lf max_payload empty_mass max_mass)
     end.
 
   (* ---- _fly_level_change: climb and descent ---- *)
